@@ -14,7 +14,10 @@
    Hypotheses.  `length (names g) = length (nodes g)`: the generated code indexes self.nodes with a
    position found in self.node_names and Python would raise IndexError where the hand model reads a
    default.  `NoDup (map fst (arcs g))`: set_depot refills the dict by `update`, which would merge equal keys.
-   Both are parts of the C15 invariant `Inv`; C15_gen_step_eq / C15_gen_invariant discharge them along
+   The sequence class's set_depot (strict, depot moved) re-adds the stored arcs by the names of their
+   endpoints: it is proved equal under the whole invariant `Inv g` (every arc names two nodes of the graph, so
+   no iteration of the loop raises and no half-rebuilt dict is left behind).
+   All are parts of the C15 invariant `Inv`; C15_gen_step_eq / C15_gen_invariant discharge them along
    every history that starts from the empty graph. *)
 From Coq Require Import List Arith Bool ZArith Lia.
 From VQ Require Import Base Vrptw Vrptw_facts PyVrptw PyVrptw_facts Heur.
@@ -157,15 +160,42 @@ Proof.
 Qed.
 Print Assumptions C15_gen_seq_add_arc.
 
+(* the strict set_depot: the local `moved`, the base behaviour, and -- when strict and moved -- the
+   re-adding of every stored arc, by the names of its endpoints and in dict order, into a fresh dict;
+   then the depot self-arc.  Needs the whole invariant: the loop body calls add_arc for names read back
+   from stored arcs, which exist because every arc is filed under its own endpoints (inv_arcs). *)
 Theorem C15_gen_seq_set_depot : forall strict g nm,
-  length (names g) = length (nodes g) -> NoDup (map fst (arcs g)) ->
-  gen_seq_set_depot strict g nm = lift_unit g (seq_set_depot g nm).
+  Inv g ->
+  gen_seq_set_depot strict g nm = lift_unit g (seq_set_depot strict g nm).
 Proof.
-  intros strict g nm Hl Hk. unfold gen_seq_set_depot, seq_set_depot.
+  intros strict g nm HI. pose proof (Inv_lengths _ HI) as Hl. pose proof (inv_keys _ HI) as Hk.
+  unfold gen_seq_set_depot, seq_set_depot, py_index.
+  destruct (index_of nm (names g)) as [d0|] eqn:Ed; [|reflexivity]. cbn [try_]. cbv zeta.
   destruct C15_gen_rp_delegates as (_ & _ & _ & Rd & _). rewrite Rd, (C15_gen_set_depot _ _ Hl Hk), call_lift_unit.
   destruct (set_depot g nm) as [g1|e] eqn:E; [|reflexivity].
   pose proof (set_depot_nonempty _ _ _ Hl E) as Hn.
-  rewrite !(py_getitem_nth dummy_node _ 0 Hn). reflexivity.
+  pose proof (set_depot_inv _ _ _ HI E) as HI1. pose proof (Inv_lengths _ HI1) as Hl1.
+  assert (Hb : forall s a, length (names s) = length (nodes s) ->
+            call (gen_seq_add_arc strict s (arc_origin_name a) (arc_destination_name a) (att a) (acost a))
+                 (fun s' _ => ret s' tt)
+            = lift_unit s (match add_arc_gen strict s (aorig a) (adest a) (att a) (acost a) with
+                           | Ok (g', _) => Ok g' | Err e => Err e end)).
+  { intros s a Hs. rewrite (C15_gen_seq_add_arc _ _ _ _ _ _ Hs). unfold arc_origin_name, arc_destination_name.
+    destruct (add_arc_gen strict s (aorig a) (adest a) (att a) (acost a)) as [[g' b]|e]; reflexivity. }
+  assert (Hnm : forall kv, In kv (arcs g1) ->
+            In (aorig (snd kv)) (names (mkGraph (names g1) (nodes g1) [])) /\
+            In (adest (snd kv)) (names (mkGraph (names g1) (nodes g1) []))).
+  { intros [k a] Hin. cbn [names snd]. eapply arc_names_in; eauto. }
+  (* the test `self.strict and moved`, whichever way round it is written *)
+  unfold nat_ne, nat_eq. destruct strict; destruct (Nat.eqb d0 0); cbn [andb orb negb];
+    try (rewrite !(py_getitem_nth dummy_node _ 0 Hn); reflexivity).
+  (* strict and moved: the loop is readd_arcs on the graph with a fresh arc dict *)
+  change (set_arcs dict_new g1) with (mkGraph (names g1) (nodes g1) []).
+  rewrite (for_each_readd true _ Hb (arcs g1) (mkGraph (names g1) (nodes g1) []) Hl1 Hnm).
+  destruct (readd_arcs_ok true _ _ Hnm) as [g2 E2]. rewrite E2. cbn [lift_unit call].
+  destruct (readd_arcs_frame _ _ _ _ E2) as [_ En2]. cbn [nodes] in En2.
+  assert (Hn2 : (0 < length (nodes g2))%nat) by (rewrite En2; exact Hn).
+  rewrite !(py_getitem_nth dummy_node _ 0 Hn2). reflexivity.
 Qed.
 Print Assumptions C15_gen_seq_set_depot.
 
@@ -186,7 +216,7 @@ Proof.
   - rewrite (C15_gen_seq_add_arc _ _ _ _ _ _ Hl).
     destruct (add_arc_gen s g o d tm cost) as [[g' b]|e]; reflexivity.
   - rewrite (C15_gen_set_depot _ _ Hl Hk). destruct (set_depot g nm); reflexivity.
-  - rewrite (C15_gen_seq_set_depot _ _ _ Hl Hk). destruct (seq_set_depot g nm); reflexivity.
+  - rewrite (C15_gen_seq_set_depot _ _ _ HI). destruct (seq_set_depot s g nm); reflexivity.
 Qed.
 Print Assumptions C15_gen_step_eq.
 
@@ -228,9 +258,9 @@ Theorem C15_gen_depot_first : forall strict g nm g',
   hd_error (names g') = Some nm.
 Proof.
   intros strict g nm g' HI H. pose proof (Inv_lengths _ HI) as Hl. pose proof (inv_keys _ HI) as Hk.
-  rewrite (C15_gen_set_depot _ _ Hl Hk), (C15_gen_seq_set_depot _ _ _ Hl Hk) in H.
+  rewrite (C15_gen_set_depot _ _ Hl Hk), (C15_gen_seq_set_depot _ _ _ HI) in H.
   destruct H as [H|H].
   - destruct (set_depot g nm) as [g1|e] eqn:E; inversion H; subst. eapply set_depot_first; eauto.
-  - destruct (seq_set_depot g nm) as [g1|e] eqn:E; inversion H; subst. eapply seq_set_depot_first; eauto.
+  - destruct (seq_set_depot strict g nm) as [g1|e] eqn:E; inversion H; subst. eapply seq_set_depot_first; eauto.
 Qed.
 Print Assumptions C15_gen_depot_first.
